@@ -139,6 +139,11 @@ def expand_c10(cfg):
                         {'T': IDENT, 'rev': True, 'shift': 0},
                         {'T': IDENT, 'rev': False, 'shift': (n // 3) if not cfg['open'] else 0},
                         {'T': IDENT, 'rev': False, 'shift': (n - 5) if not cfg['open'] else 0}]}
+    # an edge point may sit on an arc fitted to the section within the analysis tolerance, and the section itself is a polygon
+    # inscribed in the generating envelope: allowance = analysis tolerance + the largest sagitta of the two end caps + 20
+    m_te = max(6, int(cfg['nside'] * 0.08)); m_le = max(8, int(cfg['nside'] * 0.12))
+    sag = max(rte * (1 - math.cos(math.pi / (2 * m_te))), rle * (1 - math.cos(math.pi / (2 * m_le)))) / chord * 1e6
+    rec['edge_tol_mc'] = int(rec['tolq'] + sag + 20)
     rec['le_chk'] = not (cfg['open'] and cfg.get('front', False))
     rec['te_chk'] = not (cfg['open'] and not cfg.get('front', False))
     rec.update(sec)
